@@ -100,6 +100,8 @@ pub enum EnvOp {
     Donate(Id, u8, u128),
     NoRedel(Id, bool),
     NoUndel(Id, bool),
+    /// upgrade of a contract to the same code (calls its `migrate` entry point)
+    Migrate(Id),
     Oracle(bool, u128),
     Swap(bool, u128),
     Legacy(Id, u64, u128),
@@ -281,6 +283,7 @@ impl Op {
                 EnvOp::Donate(a, d, n) => format!("env donate {} {} {}", a, d, n),
                 EnvOp::NoRedel(v, b) => format!("env noredel {} {}", v, b01(*b)),
                 EnvOp::NoUndel(v, b) => format!("env noundel {} {}", v, b01(*b)),
+                EnvOp::Migrate(c) => format!("env migrate {}", c),
                 EnvOp::Oracle(b, p) => format!("env oracle {} {}", b01(*b), p),
                 EnvOp::Swap(b, p) => format!("env swap {} {}", b01(*b), p),
                 EnvOp::Legacy(u, b, a) => format!("env legacy {} {} {}", u, b, a),
@@ -508,6 +511,7 @@ pub fn parse_line(line: &str) -> Option<Op> {
         ["env", "donate", a, d, n] => Some(Op::Env(EnvOp::Donate(pn(a)?, pn(d)?, pn(n)?))),
         ["env", "noredel", v, b] => Some(Op::Env(EnvOp::NoRedel(pn(v)?, pb(b)?))),
         ["env", "noundel", v, b] => Some(Op::Env(EnvOp::NoUndel(pn(v)?, pb(b)?))),
+        ["env", "migrate", c] => Some(Op::Env(EnvOp::Migrate(pn(c)?))),
         ["env", "oracle", b, p] => Some(Op::Env(EnvOp::Oracle(pb(b)?, pn(p)?))),
         ["env", "swap", b, p] => Some(Op::Env(EnvOp::Swap(pb(b)?, pn(p)?))),
         ["env", "legacy", u, b, a] => Some(Op::Env(EnvOp::Legacy(pn(u)?, pn(b)?, pn(a)?))),
@@ -727,6 +731,20 @@ impl Chain {
                 let coins: Vec<Coin> = funds.iter().map(|(d, a)| Coin::new(*a, denom(*d))).collect();
                 self.tx(*sender, *target, &call.to_json(), &coins)
             }
+            Op::Env(EnvOp::Migrate(c)) => {
+                // an upgrade is a transaction of its own: all or nothing
+                let snapshot = self.clone();
+                self.effects.clear();
+                self.trace.clear();
+                self.fuel = 400;
+                match self.run_migrate(*c) {
+                    Ok(()) => Ok(()),
+                    Err(e) => {
+                        *self = snapshot;
+                        Err(e)
+                    }
+                }
+            }
             Op::Env(e) => {
                 self.effects.clear();
                 match e {
@@ -759,6 +777,7 @@ impl Chain {
                     }
                     EnvOp::Legacy(u, b, a) => self.seed_legacy(*u, *b, *a),
                     EnvOp::UnbondingTime(n) => self.unbonding_time = *n,
+                    EnvOp::Migrate(_) => {}
                 }
                 Ok(())
             }
